@@ -29,7 +29,7 @@ READONLY = {'get', 'get_attributes', 'get_attribute_list', 'encrypt', 'decrypt',
 
 def plan(tier):
     return {
-        'level': 'exploration', 'shards': 16, 'budget_s': 80 if tier == 'quick' else 800,
+        'level': 'exploration', 'shards': 16, 'budget_s': 120 if tier == 'quick' else 800,
         'rule': 'generated operation policies (preset / groups / both / neither, entries randomly '
                 'missing) plus the built-in default/public; objects of all seven types with canary '
                 'values under each policy; every (identity x object x addressing operation) attempted '
@@ -45,8 +45,8 @@ def plan(tier):
 
 
 def cases(tier, seed):
-    n = 16 if tier == "quick" else 320
-    return [{'hist': i} for i in range(n)] + [{'conc': i} for i in range(8 if tier == 'quick' else 96)]
+    n = 24 if tier == "quick" else 320
+    return [{'hist': i} for i in range(n)] + [{'conc': i} for i in range(16 if tier == 'quick' else 160)]
 
 
 def rows_of(dump):
